@@ -1,4 +1,6 @@
 import SqlObjVerif.Lemmas.CodecXBase
+import SqlObjVerif.Lemmas.CodecXInt
+import SqlObjVerif.Lemmas.CodecXFk
 /-!
 # CodecX — the translated Int / Bool / String / Unicode / Enum / ForeignKey validators = the hand model
 
@@ -8,24 +10,6 @@ namespace SqlObjVerif.PyCodec
 
 open SqlObjVerif.Codec (Str PyVal FTok)
 open Extracted
-
-/-! ### IntValidator -/
-
-theorem int_float (t : FTok) : runV cfgInt intToPython (.float t) = some (Codec.intV (.float t)) := by
-  cases t with
-  | lit t =>
-    cases h : Codec.floatClass t <;>
-    pyxw [intToPython, intToPython_s0, intToPython_s1, intToPython_s2, intToPython_s3, intToPython_s4, intToPython_for0,
-      Codec.intV, floatFracM, intOfFloatM, Codec.intOfFloat, h]
-  | ofInt i =>
-    by_cases h : Codec.exactInt i = true <;>
-    pyxw [intToPython, intToPython_s0, intToPython_s1, intToPython_s2, intToPython_s3, intToPython_s4, intToPython_for0,
-      Codec.intV, floatFracM, intOfFloatM, Codec.intOfFloat, h]
-
-theorem intToPython_eq (v : PyVal) : runV cfgInt intToPython v = some (Codec.intV v) := by
-  cases v with
-  | float t => exact int_float t
-  | _ => rfl
 
 /-! ### BoolValidator -/
 
@@ -53,23 +37,5 @@ theorem enumToPython_eq (vals : List Str) (v : PyVal) : runV (cfgEnum vals) enum
     by_cases h : s ∈ vals <;>
     pyxw [enumToPython, enumToPython_s0, enumToPython_s1, Codec.enumV, h]
   | _ => rfl
-
-/-! ### ForeignKeyValidator.from_python -/
-
-theorem fkInt_str (first : Bool) (s : Str) :
-    runV (cfgFkInt first) fkFromPython (.str s) = some (Codec.fkFromPython (.str s)) := by
-  cases first <;> cases h : Codec.intText s <;> by_cases h2 : (∃ x, x ∈ s ∧ Codec.isDigit x = true) <;>
-  pyxw [fkFromPython, fkFromPython_s0, fkFromPython_s1, fkFromPython_s2, fkFromPython_s3, fkFromPython_s4,
-    Codec.fkFromPython, h, h2]
-
-theorem fkFromPython_int_eq (first : Bool) (v : PyVal) :
-    runV (cfgFkInt first) fkFromPython v = some (Codec.fkFromPython v) := by
-  cases v with
-  | str s => exact fkInt_str first s
-  | _ => cases first <;> rfl
-
-theorem fkFromPython_str_eq (first : Bool) (v : PyVal) :
-    runV (cfgFkStr first) fkFromPython v = some (Codec.fkStrFromPython v) := by
-  cases first <;> cases v <;> rfl
 
 end SqlObjVerif.PyCodec
